@@ -122,6 +122,11 @@ package node_manager
 //@   ensures[c34-black-cannot-register] r1 == nil ==> old(Store)[gbk] == None
 //@   ensures[c34-not-in-pool] r1 == nil ==> !ginpool
 //@   callsite[c34-registers-param] putPeerApply#1 requires arg1 == params
+//@   -- ... and only in its canonical spelling (the pool is keyed by the hex string: a second spelling of a member's key
+//@   -- would be a second pool entry for the same public key, counted twice wherever pool entries are counted)
+//@   ghost var canon bool = false
+//@   set after "if hex.EncodeToString(peerPubkeyPrefix) != params.PeerPubkey" : canon := true
+//@   ensures[c34-canonical-key-spelling] r1 == nil ==> canon
 
 //@ func UnRegisterCandidate
 //@   property C18, C32
